@@ -10,7 +10,7 @@
 		g_cb_arg_is_task = nondet_bool(); g_cb_redo_done = false;          \
 		g_cv_task0 = nondet_ptr(); g_cv_task1 = NULL; g_cv_sched = nondet_ptr(); g_cv_drain = nondet_ptr(); \
 		VP_CNT(g_wk_task0); VP_CNT(g_wk_task1); VP_CNT(g_wk_sched); VP_CNT(g_wk_sched_all); \
-		VP_CNT(g_wk_drain); g_cv_waited = nondet_bool(); g_q_empty = nondet_bool(); g_worker_unit = false; VP_CNT(g_cv_fini); VP_CNT(g_mtx_fini); \
+		VP_CNT(g_wk_drain); g_cv_waited = nondet_bool(); g_q_empty = nondet_bool(); g_worker_unit = false; g_expire_unit = false; g_thread_entered = false; g_cv_eq = NULL; g_eq = NULL; VP_CNT(g_cv_fini); VP_CNT(g_mtx_fini); \
 		VP_CNT(g_thr_init); VP_CNT(g_thr_run); VP_CNT(g_thr_fini);         \
 		g_thr_init_fail_at = nondet_int(); g_thr_init_rv = nondet_int();   \
 		VP_CNT(g_free_calls); VP_CNT(g_alloc_ok);                          \
@@ -73,3 +73,74 @@ void h_taskq_thread(void)
 	nni_taskq_thread(g_thr);
 	VP_CANARY();
 }
+
+/* ---- expire thread (real src/core/aio.c): skeleton of real objects, lists built with the real list code ---- */
+#ifdef TQ_WITH_AIO
+static nni_aio *vp_mk_aio(size_t i, bool listed)
+{
+	nni_aio *a = VP_NEW(nni_aio);
+	a->a_init                = true;
+	a->a_expire_q            = g_eq;
+	a->a_expire_node.ln_next = NULL;
+	a->a_expire_node.ln_prev = NULL;
+	a->a_prov_node.ln_next   = NULL;
+	a->a_prov_node.ln_prev   = NULL;
+	a->a_expiring            = false;
+	a->a_skipped_callback    = NULL;
+	a->a_sleep               = nondet_bool();
+	a->a_expire_ok           = nondet_bool();
+	a->a_stop                = nondet_bool();
+	a->a_stopped             = false;
+	a->a_abort               = false;
+	a->a_use_expire          = nondet_bool();
+	a->a_cancel_fn           = a->a_sleep ? nni_sleep_cancel : vp_cancel;
+	g_sleep0[i]              = a->a_sleep;
+	g_ok0[i]                 = a->a_expire_ok;
+	/* its completion task: prepared by nni_aio_start, counted, not queued */
+	a->a_task.task_node.ln_next = NULL;
+	a->a_task.task_node.ln_prev = NULL;
+	a->a_task.task_cb           = vp_cb;
+	a->a_task.task_arg          = &a->a_task;
+	a->a_task.task_tq           = g_tq;
+	a->a_task.task_cv.mtx       = &a->a_task.task_mtx.mtx;
+	a->a_task.task_prep         = true;
+	if (listed) {
+		nni_list_append(&g_eq->eq_list, a);
+	}
+	return (a);
+}
+void h_expire_loop(void)
+{
+	VP_HAVOC_GHOSTS();
+	g_expire_unit    = true;
+	g_cb_arg_is_task = true;
+	g_cb_mode        = 0;
+	g_na             = TQ_NA; /* constant case split */
+	g_race           = TQ_RACE;
+	g_race_done      = false;
+	g_race_timeout   = nondet_int();
+	g_cancel_finishes = nondet_bool();
+	g_now            = nondet_u64();
+	__CPROVER_assume(g_now < ((nni_time) 1 << 61));
+	g_fire_n[0] = 0; g_fire_n[1] = 0; g_left[0] = 0; g_left[1] = 0;
+	g_tq = VP_NEW(nni_taskq);
+	NNI_LIST_INIT(&g_tq->tq_tasks, nni_task, task_node);
+	g_tq->tq_sched_cv.mtx = &g_tq->tq_mtx.mtx;
+	g_tq->tq_wait_cv.mtx  = &g_tq->tq_mtx.mtx;
+	g_eq = VP_NEW(nni_aio_expire_q);
+	NNI_LIST_INIT(&g_eq->eq_list, nni_aio, a_expire_node);
+	g_eq->eq_cv.mtx = &g_eq->eq_mtx.mtx;
+	g_eq->eq_stop   = nondet_bool();
+	g_eq->eq_exit   = nondet_bool();
+	g_a0       = vp_mk_aio(0, g_na >= 1);
+	g_a1       = vp_mk_aio(1, g_na >= 2);
+	g_task     = NULL;
+	g_cv_task0 = &g_a0->a_task.task_cv;
+	g_cv_task1 = &g_a1->a_task.task_cv;
+	g_cv_sched = &g_tq->tq_sched_cv;
+	g_cv_drain = &g_tq->tq_wait_cv;
+	g_cv_eq    = &g_eq->eq_cv;
+	nni_aio_expire_loop(g_eq);
+	VP_CANARY();
+}
+#endif
